@@ -581,6 +581,14 @@ func checkLocationEvaluator(c *Ctx, gsq, ev *ssa.Function) {
 			case locArg.Op == "index" && locArg.Args[0].isField("SubLocations"):
 				if _, isC := locArg.Args[1].constInt(); isC {
 					stt, why = broken, "the evaluator visits sub-locations at fixed indices: joins with more operands lose bases"
+					// a fixed index under a test of the number of operands (the one-operand case handled apart) is fine
+					for _, a := range pathCond(tb, f.Blocks[0], cl.Block()).atoms() {
+						if a.Atom.contains(func(x *Term) bool {
+							return x.isCall("builtin:len") && len(x.Args) == 1 && x.Args[0].contains(func(y *Term) bool { return y.isField("SubLocations") })
+						}) {
+							stt, why = unknown, "a sub-location is visited at a fixed index under a test of the operand count ("+short(a.Atom.String())+")"
+						}
+					}
 				}
 			}
 			c.judge(stt, "TERM-EVAL", "inner node = every sub-location in order", cl.Pos(), "range over SubLocations, one recursive evaluation per operand", why)
